@@ -790,6 +790,9 @@ class SymOpt(SymBase):
         v = self.resolve()
         return getattr(v, name)
 
+    def __hash__(self):
+        return hash(self.resolve())
+
     # operators act on the resolved value
     def __add__(self, o):
         return self.resolve() + o
